@@ -30,6 +30,8 @@ class StartRequests(Observer):
         self.lost_since = {}
         self.inst_states = {}
         self.prev_ops = {}
+        self.disability_t = {}   # (nick, program) -> t_us of the last accepted enable / disable
+        self.disab_delivery = {}  # (receiver, inc, sender identifier, ns) -> (t_us, receiver's view of sender, disabled)
 
     def _probe(self, name):
         self.probes[name] = self.probes.get(name, 0) + 1
@@ -70,6 +72,19 @@ class StartRequests(Observer):
         return last is not None and (last[0] == 20 or (last[0] == 100 and last[1]))
 
     def on_wire(self, sim, rec):
+        if rec['method'] in ('supvisors.disable', 'supvisors.enable') and rec['via'] == 'client' \
+                and rec.get('outcome') == 'ok' and rec.get('args'):
+            self.disability_t[(rec['dst'], str(rec['args'][0]))] = sim.now_us
+        if rec['method'] == 'supervisor.sendRemoteCommEvent' and rec['outcome'] == 'ok' and rec.get('header') == 4 \
+                and rec.get('comm_type') == 'SupvisorsPublication' and isinstance(rec.get('body'), dict) \
+                and rec['src'] != rec['dst']:
+            # a PROCESS_DISABILITY publication delivered: how did the receiver see the sender at that instant?
+            d, src = sim.instances.get(rec['dst']), sim.instances.get(rec['src'])
+            if d is not None and src is not None and d.alive and d.supvisors is not None:
+                st = d.supvisors.context.instances.get(src.identifier)
+                b = rec['body']
+                self.disab_delivery[(d.nick, d.incarnation, src.identifier, '%s:%s' % (b.get('group'), b.get('name')))] = \
+                    (sim.now_us, st.state.name if st else None, bool(b.get('disabled')))
         if rec['method'] == 'supervisor.sendRemoteCommEvent' and rec['outcome'] == 'ok' and rec.get('header') == 3 \
                 and rec.get('comm_type') == 'SupvisorsNotification' and isinstance(rec.get('body'), list):
             d = sim.instances.get(rec['dst'])
@@ -153,6 +168,19 @@ class StartRequests(Observer):
             proc = app.processes[ns.split(':')[1]]
             prules = proc.rules.serial()
             arules = dict(app.rules.serial(), application_name=app.application_name)
+        # the sequencing fields are taken from the GENERATED rules document, not from what Supvisors made of it
+        from oracles.stops import _rule_of
+        app_doc, prog_doc = _rule_of(sim.config, ns)
+        prules, arules = dict(prules), dict(arules)
+        if arules.get('managed') and app_doc is not None:
+            arules['start_sequence'] = app_doc.get('start_sequence') or 0
+            if prog_doc is not None:
+                prules['start_sequence'] = prog_doc.get('start_sequence') or 0
+                prules['required'] = bool(prog_doc.get('required', False))
+                prules['wait_exit'] = bool(prog_doc.get('wait_exit', False))
+                prules['expected_loading'] = prog_doc.get('expected_loading', 0)
+            else:
+                prules['start_sequence'] = 0
         return prules, arules
 
     def _view(self, sim, s):
@@ -168,6 +196,13 @@ class StartRequests(Observer):
                 loads[p.namespec] = r['expected_loading']
                 seqs[p.namespec] = r['start_sequence']
                 required[p.namespec] = r['required']
+                # loads, sequences and required flags as written in the GENERATED rules document
+                if app.rules.managed:
+                    from oracles.stops import _rule_of
+                    _a, prog_doc = _rule_of(sim.config, p.namespec)
+                    loads[p.namespec] = (prog_doc or {}).get('expected_loading', 0)
+                    seqs[p.namespec] = (prog_doc or {}).get('start_sequence') or 0
+                    required[p.namespec] = bool((prog_doc or {}).get('required', False))
         return states, procs, loads, seqs, required
 
     def _node_of(self, ident):
@@ -210,13 +245,46 @@ class StartRequests(Observer):
         detail = {'requester': s.nick, 'target': identifier, 'process': ns}
         # ---- C04: eligibility
         if states.get(identifier) != 'RUNNING':
-            self.v('C04', 'target-not-running', dict(detail, seen=states.get(identifier)), 'target-not-running')
+            sig = 'target-not-running'
+            arules0 = arules if arules.get('managed') else {}
+            if states.get(identifier) == 'FAILED' and arules0.get('distribution', 'ALL_INSTANCES') != 'ALL_INSTANCES':
+                # recorded finding: the commands of a non-distributed application hold the instance chosen at plan time;
+                # they lose it when the instance is invalidated (next tick), not when it is declared FAILED (at once, on
+                # an XML-RPC failure): a request triggered in between still goes to the FAILED instance
+                sig = 'target-not-running:non-distributed-target-FAILED-not-yet-invalidated'
+            self.v('C04', 'target-not-running', dict(detail, seen=states.get(identifier)), sig)
         proc = s.supvisors.context.applications[app].processes[ns.split(':')[1]]
         info = proc.info_map.get(identifier)
         if info is None:
             self.v('C04', 'target-does-not-know-program', detail, 'target-does-not-know-program')
         elif info.get('disabled'):
             self.v('C04', 'target-has-program-disabled', detail, 'target-has-program-disabled')
+        # ... and what the target's own Supervisor says (the view of the requester may only lag by the time a
+        # publication needs to travel: a disability older than 20 s must be known)
+        if t is not None and t.alive and t.supvisors is not None and info is not None and not info.get('disabled'):
+            from supervisor.xmlrpc import RPCError
+            with frozen(sim, t):
+                try:
+                    tinfo = t.rpcif.get_local_process_info(ns)
+                except RPCError:
+                    tinfo = None
+            if tinfo is None:
+                self.v('C04', 'target-does-not-know-program', dict(detail, source='target'),
+                       'target-does-not-know-program:truth')
+            elif tinfo.get('disabled'):
+                t_d = self.disability_t.get((t.nick, tinfo.get('program_name')))
+                self._probe('truly_disabled_target_seen')
+                if t_d is None or now - t_d > 20 * US:
+                    # recorded finding (C12 hand-shake gap, here for disability events): the event was not published to a
+                    # peer the sender saw STOPPED, or reached the requester before it had admitted the sender, and nothing
+                    # repairs it afterwards. An event delivered while the sender was CHECKED / RUNNING must be known.
+                    dl = self.disab_delivery.get((s.nick, s.incarnation, identifier, ns))
+                    sig = 'target-has-program-disabled:truth'
+                    if dl is None or not dl[2] or dl[1] not in ('CHECKED', 'RUNNING') or (t_d is not None and dl[0] < t_d):
+                        sig += ':disability-event-lost-in-hand-shake-gap'
+                    self.v('C04', 'target-has-program-disabled',
+                           dict(detail, source='target', disabled_since=None if t_d is None else t_d / US,
+                                delivery=dl), sig)
         distribution = arules.get('distribution', 'ALL_INSTANCES') if arules.get('managed') else 'ALL_INSTANCES'
         rule_ids = prules['identifiers'] if distribution == 'ALL_INSTANCES' else arules.get('identifiers', ['*'])
         if '*' not in rule_ids:
